@@ -725,8 +725,16 @@ class Interp:
             v.n = mk(n, "int")
             return v
 
+        def guarded(f, *a):
+            # the sidecar talks about the function's locals: after a refactoring that renames or removes one, the invariant no
+            # longer applies -- that is "outside the subset on this tree" (the bounded contracts decide), not a verdict
+            try:
+                return f(*a)
+            except (AttributeError, KeyError, NameError) as e:
+                raise Untranslatable(f"the loop invariant of {key[0]} loop {key[1]} does not fit this source any more ({type(e).__name__}: {e})")
+
         def inv_term(k):
-            r = spec["invariant"](view(k))
+            r = guarded(spec["invariant"], view(k))
             return term_of(r, "bool") if isinstance(r, Sym) else z3.BoolVal(bool(r))
 
         # 1. the invariant holds on entry
@@ -756,7 +764,7 @@ class Interp:
                 self.exec_block(s.body, env)
             except (_Break, _Continue):
                 raise Untranslatable("break/continue in a loop cut at an invariant")
-            for h in spec.get("hints", lambda v: [])(view(k)):
+            for h in guarded(spec.get("hints", lambda v: []), view(k)):
                 if isinstance(h, tuple):     # (lemma, args): its hypotheses are an obligation here, its conclusion is assumed
                     lem, largs = h
                     ctx.oblige(f"{key[0]}#loop{key[1]}:{lem.name}", "lemma-pre", lem.hyps(*largs), {})
@@ -767,7 +775,7 @@ class Interp:
             raise PathEnd()
         # 3b. after the loop: the invariant at k = n
         ctx.assume(inv_term(n), "invariant (at exit)")
-        for h in spec.get("exit_hints", lambda v: [])(view(n)):
+        for h in guarded(spec.get("exit_hints", lambda v: []), view(n)):
             if h[0] == "squares":      # the definition of the (otherwise opaque) array of squares of h[1]
                 from .tarr import square_axiom
                 ctx.assume(square_axiom(h[1]), "definition of the squares array")
